@@ -98,12 +98,28 @@ fn run_loose(desc: &Value, ctx: &Ctx) -> CaseOut {
         for f in &inputs {
             let _ = std::fs::remove_file(f);
         }
+        // a second, independent creation of the same logical packs (other uuids): decoys for the stale locations
+        let foreign_dir = scratch.path("foreign");
+        std::fs::create_dir_all(&foreign_dir).unwrap();
+        let foreign_ok = create_loose(&case, &foreign_dir, &|_, f| f.to_string(), None).is_ok();
         let plan = plan_for(&case, Some(&created));
         let pristine_expected = expected_dump(&case, &created, &plan);
         let mut scn = 0u64;
         for (remove_external, damage_embedded) in [(false, false), (true, false), (true, true), (false, true)] {
             let dir = scratch.path(&format!("l{remove_external}{damage_embedded}"));
             copy_dir(&origin, &dir);
+            // in half of the scenarios a DIFFERENT valid pack sits at each stale location: the pack held by the opened file
+            // is the one that must be used (identity is the uuid; the file at hand is searched first)
+            if foreign_ok && !remove_external {
+                for i in 1..last {
+                    if stale(i) {
+                        let name = format!("pack{i}.jbkc");
+                        if std::fs::copy(foreign_dir.join(&name), dir.join(&name)).is_ok() {
+                            out.obs.inc("decoy_packs_at_stale_locations");
+                        }
+                    }
+                }
+            }
             let ext = dir.join(format!("pack{last}.jbkc"));
             if remove_external {
                 std::fs::remove_file(&ext).unwrap();
